@@ -13,6 +13,7 @@ import (
 	"github.com/hujm2023/go-sms-protocol/cmpp/cmpp30"
 	"github.com/hujm2023/go-sms-protocol/smgp"
 	"github.com/hujm2023/go-sms-protocol/smgp/smgp30"
+	"github.com/hujm2023/go-sms-protocol/verifhook"
 
 	"verif/sim/core"
 )
@@ -162,6 +163,39 @@ func oneLogin(r *core.Run) {
 	r.Event("login %s account=%q secret=%d octets ts=%010d zone=%+d clock=%v digest=%s wrong=%v", name, account, len(secret), ts, zone, useClock, cls, wrong)
 
 	// ---------------- client builds the request
+	// the wall clock moves while the library works: at every reading of the clock (yield point "clock.read") the
+	// simulated clock may be advanced, so two readings inside one constructor can fall into different seconds
+	var ticked time.Duration
+	if useClock && c.Prob(1, 2) {
+		step := []time.Duration{300 * time.Millisecond, 700 * time.Millisecond, time.Second, 61 * time.Second}[c.Intn(4)]
+		if c.Bool() {
+			// start just before a second boundary
+			now := time.Now()
+			d := now.Truncate(time.Second).Add(time.Second - 100*time.Millisecond).Sub(now)
+			if d > 0 {
+				time.Sleep(d)
+				r.SimTime += d
+			}
+			nn := time.Now()
+			ts = uint32(int(nn.Month())*100000000 + nn.Day()*1000000 + nn.Hour()*10000 + nn.Minute()*100 + nn.Second())
+			expect = indepDigest(account, zeros, secret, ts)
+			cls = nulClass(expect)
+		}
+		reads := 0
+		verifhook.YieldFn = func(site string, key ...int) {
+			if site != "clock.read" {
+				return
+			}
+			reads++
+			if reads > 1 {
+				time.Sleep(step)
+				r.SimTime += step
+				ticked += step
+				r.Fault("clock_ticks_between_readings")
+			}
+		}
+		defer func() { verifhook.YieldFn = nil }()
+	}
 	var req protocol.PDU
 	var reqSite string
 	switch flavour {
@@ -237,9 +271,27 @@ func oneLogin(r *core.Run) {
 	wireAuth := b[authOff : authOff+16]
 	tsOff := authOff + 16 + 1
 	wireTS := binary.BigEndian.Uint32(b[tsOff:])
+	verifhook.YieldFn = nil
 	if useClock && wireTS != ts {
-		r.Fail("C15", "timestamp", reqSite, "clock", "the clock reads %010d (zone %+d) but the request carries timestamp %010d", ts, zone, wireTS)
-		return
+		// with a clock that moved during the construction any instant between the first and the last reading is a
+		// correct timestamp; the authenticator must then belong to THAT instant
+		okTick := false
+		if ticked > 0 {
+			t0 := time.Now().Add(-ticked)
+			for d := time.Duration(0); d <= ticked+time.Second; d += time.Second {
+				tt := t0.Add(d)
+				if wireTS == uint32(int(tt.Month())*100000000+tt.Day()*1000000+tt.Hour()*10000+tt.Minute()*100+tt.Second()) {
+					okTick = true
+				}
+			}
+		}
+		if !okTick {
+			r.Fail("C15", "timestamp", reqSite, "clock", "the clock reads %010d (zone %+d) but the request carries timestamp %010d", ts, zone, wireTS)
+			return
+		}
+		ts = wireTS
+		expect = indepDigest(account, zeros, secret, ts)
+		cls = nulClass(expect)
 	}
 	if !bytes.Equal(wireAuth, expect) {
 		r.Fail("C15", "wire", reqSite, "digest", "authenticator on the wire %x, MD5(account, %d zero octets, secret, %010d) = %x", wireAuth, zeros, ts, expect)
@@ -345,6 +397,26 @@ func oneLogin(r *core.Run) {
 	frames, how = recvFrames(r, name, newByteLink(r, rb, []int{len(rb)}), 1)
 	if how != "" || len(frames) != 1 {
 		return
+	}
+	// a client recomputes the server authenticator with the library's helper, handing it the status octets where they
+	// lie: inside the frame it has just received (a sub-slice whose capacity runs on to the end of the frame). An
+	// argument is read, never written - not even beyond its length
+	if flavour != 2 && len(frames[0]) >= respOff+16 {
+		before := append([]byte(nil), frames[0]...)
+		st := frames[0][12:respOff]
+		var lib []byte
+		if p := r.Call("cmpp.GenConnectRespAuthISMG", func() { lib = cmpp.GenConnectRespAuthISMG(st, string(expect), serverSecret) }); p != nil {
+			r.Fail("C15", "panic", p.Frame, p.Kind, "GenConnectRespAuthISMG: %s", p.Value)
+			return
+		}
+		if !bytes.Equal(lib, respExpect) {
+			r.Fail("C15", "helper", "cmpp.GenConnectRespAuthISMG", "digest", "the helper's digest differs from MD5(status, request authenticator, secret)")
+		}
+		if !bytes.Equal(frames[0], before) {
+			r.Fail("C15", "helper", "cmpp.GenConnectRespAuthISMG", "argument-written", "the helper wrote into the buffer its status argument is a part of (the received frame changed)")
+			return
+		}
+		r.Probe("status_argument_inside_the_frame")
 	}
 	gotResp := ctor[respSite]()
 	if p := r.Call(respSite+".IDecode", func() { err = gotResp.IDecode(frames[0]) }); p != nil || err != nil {
